@@ -65,6 +65,38 @@ fn fallback_snapshot() -> i32 {
     }
 }
 
+/// F-m: the MANIFEST is plain JSON without a checksum and its parser ignores unknown keys: one flipped bit in the KEY
+/// "latest_snapshot" turns it into an unknown key, the (optional) field defaults to None, strict recovery ignores the
+/// snapshot and replays only the WAL segments that compaction left — the documents held only by the snapshot are gone.
+fn manifest_key_flip() -> i32 {
+    let tmp = tempfile::TempDir::new().unwrap();
+    let dir = tmp.path();
+    let b = open_new(dir, DistanceMetric::Euclidean, 0, 256); // tiny rotation threshold: the snapshot compacts older segments away
+    for id in 1..=10u64 { b.insert(id, vec_for(id, 4), HashMap::new()).unwrap(); }
+    b.create_snapshot().unwrap();
+    for id in 11..=12u64 { b.insert(id, vec_for(id, 4), HashMap::new()).unwrap(); }
+    let before = census(&b, 1..=12);
+    drop(b);
+    let mpath = dir.join("MANIFEST");
+    let mut bytes = std::fs::read(&mpath).unwrap();
+    let key = b"\"latest_snapshot\":";
+    let pos = match bytes.windows(key.len()).position(|w| w == key) { Some(p) => p, None => { println!("NOT-REPRODUCED: key not found in MANIFEST"); return 0; } };
+    bytes[pos + 1] ^= 0x01; // 'l' -> 'm'
+    std::fs::write(&mpath, &bytes).unwrap();
+    match recover(dir, DistanceMetric::Euclidean) {
+        Err(e) => { println!("NOT-REPRODUCED: strict recovery refused: {}", e); 0 }
+        Ok(r) => {
+            let after = census(&r, 1..=12);
+            if after == before { println!("NOT-REPRODUCED: recovered collection equals pre-damage collection"); 0 }
+            else {
+                let missing: Vec<u64> = before.iter().zip(after.iter()).filter(|(a, b)| a != b).map(|(a, _)| a.0).collect();
+                println!("REPRODUCED: one flipped bit in the MANIFEST key \"latest_snapshot\": strict recovery succeeded without the snapshot; documents missing/altered: {:?}", missing);
+                1
+            }
+        }
+    }
+}
+
 /// F-d/2: a damaged length field in a frame of a NON-final WAL segment looks like a torn tail; the
 /// strict reader does not count it and recovery succeeds with the rest of that segment lost.
 fn midframe_eof() -> i32 {
@@ -388,6 +420,7 @@ fn main() {
     let code = match args.get(1).map(|s| s.as_str()) {
         Some("fallback-snapshot") => fallback_snapshot(),
         Some("midframe-eof") => midframe_eof(),
+        Some("manifest-key-flip") => manifest_key_flip(),
         Some("failed-overwrite") => failed_overwrite(args.get(2).map(|s| s.as_str()).unwrap_or("nan")),
         Some("zero-after-normalize") => zero_after_normalize(),
         Some("prune-breaks-chain") => prune_breaks_chain(),
